@@ -45,8 +45,11 @@ def parse_bed12(text):
     )
 
 
-def check_bed(res, kind, exons, strand, cds, window, chrom_mode, menu, N):
-    """kind: 'tx' | 'feat'; cds: None or (c0,c1) transcript coords; window: None (no parent) | 'chrom' | (a,b)"""
+def check_bed(res, kind, exons, strand, cds, window, chrom_mode, menu, N, order=None, shared=None):
+    """kind: 'tx' | 'feat'; cds: None or (c0,c1) transcript coords; window: None (no parent) | 'chrom' | (a,b);
+    order: how the constructor lists are handed over (lib.listing); shared: a SECOND chunk window - after the interval
+    exists, a gene / feature collection is built from the same object on that other chunk, and the interval still
+    reports itself in the coordinates of the chunk it was built on"""
     genome = GENOME[:N] if N <= len(GENOME) else (GENOME * (N // len(GENOME) + 1))[:N]
     minus_chunk = isinstance(window, tuple) and len(window) == 3
     if window is None:
@@ -67,23 +70,36 @@ def check_bed(res, kind, exons, strand, cds, window, chrom_mode, menu, N):
         parent = lib.chunk_parent(genome, window[0], window[1])
     case = dict(kind=kind, exons=[list(b) for b in exons], strand=strand, cds=list(cds) if cds else None,
                 window=list(window) if isinstance(window, tuple) else window, chrom_mode=chrom_mode, menu=menu, N=N)
+    if order is not None:
+        case["order"] = order
+    if shared is not None:
+        case["shared"] = list(shared)
     name_arg, score, rgb = menu
     cds_blocks = None
     if kind == "tx":
         if cds:
             cds_blocks = F.cds_blocks_for(exons, strand, cds[0], cds[1])
             frames = F.consistent_frames_plus_order(cds_blocks, strand, 0)
-            obj = lib.mk_tx(exons, strand, cds_blocks, frames, parent, sequence_name="chrV", transcript_symbol="sym", transcript_id="tid")
+            obj = lib.mk_tx(exons, strand, cds_blocks, frames, parent, order=order, sequence_name="chrV", transcript_symbol="sym", transcript_id="tid")
         else:
-            obj = lib.mk_tx(exons, strand, parent=parent, sequence_name="chrV", transcript_symbol="sym", transcript_id="tid")
+            obj = lib.mk_tx(exons, strand, parent=parent, order=order, sequence_name="chrV", transcript_symbol="sym", transcript_id="tid")
         exp_name = {"transcript_symbol": "sym", "transcript_id": "tid", "free text": "free text"}[name_arg]
     else:
-        obj = lib.mk_feat(exons, strand, parent, sequence_name="chrV", feature_name="sym", feature_id="tid")
+        obj = lib.mk_feat(exons, strand, parent, order=order, sequence_name="chrV", feature_name="sym", feature_id="tid")
         exp_name = {"transcript_symbol": "transcript_symbol", "transcript_id": "transcript_id", "free text": "free text"}[name_arg]
         if name_arg == "transcript_symbol":
             name_arg, exp_name = "feature_name", "sym"
         elif name_arg == "transcript_id":
             name_arg, exp_name = "feature_id", "tid"
+    if shared is not None:
+        from inscripta.biocantor.gene import GeneInterval, FeatureIntervalCollection
+
+        other = lib.chunk_parent(genome, shared[0], shared[1])
+        o_ = lib.outcome(lambda: GeneInterval([obj], parent_or_seq_chunk_parent=other) if kind == "tx" else FeatureIntervalCollection([obj], parent_or_seq_chunk_parent=other))
+        res.trans()
+        if o_[0] == "exc" and not lib.is_documented_exc(o_[2]):
+            res.deviation("collection-on-another-chunk", case, o_[1], "collection or documented exception", sig="shared-ctor-internal-error")
+
     def render():
         rec = obj.to_bed12(score=score, rgb=RGB(*rgb), name=name_arg, chromosome_relative_coordinates=chrom_mode)
         first = str(rec)
@@ -222,6 +238,17 @@ def run_shard(shard):
                             if mi > 0 and cds not in (None, placements[-1]):
                                 continue
                             check_bed(res, "tx", exons, strand, cds, win, chrom_mode, menu, N)
+                        if mi == 0 and len(exons) >= 2 and win in (None, "chrom", (0, N), (lo, hi)):
+                            # the record is a function of the SET of blocks: descending and rotated constructor lists
+                            for order in ("rev",) + tuple(range(1, len(exons))):
+                                check_bed(res, "feat", exons, strand, None, win, chrom_mode, menu, N, order=order)
+                                for cds in (None, placements[-1], placements[len(placements) // 2]):
+                                    check_bed(res, "tx", exons, strand, cds, win, chrom_mode, menu, N, order=order)
+                        if mi == 0 and isinstance(win, tuple) and len(win) == 2:
+                            # an interval that is ALSO made the child of a collection on another chunk keeps its own chunk
+                            for other in {(0, N), (max(win[0] - 1, 0), win[1]), (win[0], min(win[1] + 1, N))} - {win}:
+                                check_bed(res, "feat", exons, strand, None, win, chrom_mode, menu, N, shared=other)
+                                check_bed(res, "tx", exons, strand, placements[-1], win, chrom_mode, menu, N, shared=other)
     res.sample({"exons": [[1, 3], [4, 6]], "strand": "-", "cds": [1, 3], "window": [0, 7], "chrom_mode": False})
     return res
 
@@ -229,7 +256,8 @@ def run_shard(shard):
 def replay(case):
     res = ShardResult()
     check_bed(res, case["kind"], tuple(tuple(b) for b in case["exons"]), case["strand"], tuple(case["cds"]) if case["cds"] else None,
-              tuple(case["window"]) if isinstance(case["window"], list) else case["window"], case["chrom_mode"], tuple(tuple(x) if isinstance(x, list) else x for x in case["menu"]), case["N"])
+              tuple(case["window"]) if isinstance(case["window"], list) else case["window"], case["chrom_mode"], tuple(tuple(x) if isinstance(x, list) else x for x in case["menu"]), case["N"],
+              order=case.get("order"), shared=tuple(case["shared"]) if case.get("shared") else None)
     return res.deviations
 
 
